@@ -135,6 +135,11 @@ pub fn committee_elig(seed: u64, weights: &[u64], fork: u64, first_block: u64, s
 }
 
 pub fn committee(seed: u64, weights: &[u64]) -> Committee {
-    let fb = std::env::var("VERIF_FIRST_BLOCK").ok().and_then(|s| s.parse().ok()).unwrap_or(0);
+    committee_fb(seed, weights, 0)
+}
+
+/// Round-robin committee whose genesis starts at block `first_block`.
+pub fn committee_fb(seed: u64, weights: &[u64], first_block: u64) -> Committee {
+    let fb = std::env::var("VERIF_FIRST_BLOCK").ok().and_then(|s| s.parse().ok()).unwrap_or(first_block);
     committee_with(seed, weights, 0, fb, LeaderSelection { frequency: 1, mode: LeaderSelectionMode::RoundRobin })
 }
